@@ -89,9 +89,12 @@ class Timer(hioing.Mixin):
             If start not provided then starts at current time.time()
         """
         # remember current duration when duration not provided
-        duration = float(duration) if duration is not None else self.duration
+        duration = float(duration) if duration is not None else self._span
         self._start = float(start) if start is not None else time.time()
         self._stop = self._start + duration
+        self._span = duration  # as asked for, ._stop - ._start is rounded
+        kept = self._stop - self._start  # on the float grid of epoch sized ._stop
+        self._lost = duration - kept if kept != duration else 0.0  # not inf - inf
         return self._start
 
 
@@ -99,8 +102,13 @@ class Timer(hioing.Mixin):
         """Lossless restart of Timer at start = ._stop for duration if provided,
         Otherwise current duration.
         No time lost. Useful to extend Timer so no time lost
+        The part of the duration that rounding kept out of ._stop is made up in
+        the next period so that repeated restarts do not drift.
         """
-        return self.start(duration=duration, start=self._stop)
+        span = float(duration) if duration is not None else self._span
+        begin = self.start(duration=span + self._lost, start=self._stop)
+        self._span = span  # without what was made up
+        return begin
 
 
 
